@@ -1,13 +1,8 @@
 import Ogorek.WF
 import Ogorek.Lemmas.Reader
+import Ogorek.Lemmas.Num
 
 namespace Ogorek
-
-theorem inInt64_iff (i : Int) : inInt64 i = true ↔ -9223372036854775808 ≤ i ∧ i ≤ 9223372036854775807 := by
-  unfold inInt64
-  rw [Bool.and_eq_true, decide_eq_true_eq, decide_eq_true_eq]
-  unfold minInt64 maxInt64
-  constructor <;> intro h <;> constructor <;> omega
 
 @[simp] theorem wfVal_list (c : Cfg) (u : Bool) (hl : Nat) (xs : List GoVal) :
     wfVal c u hl (.list xs) = xs.all (wfVal c u hl) := by
